@@ -184,6 +184,7 @@ def rotations(c, rebound, exe):
         return Q(ix=l[0], iy=l[1], iz=l[2], r=l[3])
 
     lines, expect, meta = [], [], []
+    tolf = {}           # line index -> tolerance factor (condition number of the construction)
 
     def add(line, exp, tag, soft=False):
         lines.append(line)
@@ -309,6 +310,8 @@ def rotations(c, rebound, exe):
     for i in range(nft):
         try:
             f, t, cls = gen_from_to(rng, i)
+            if not all(1e-150 < math.sqrt(sum(x * x for x in v_)) < 1e150 for v_ in (f, t)):
+                cls = "extreme-scale"    # |v|^2 under/overflows: the normalisation itself is inaccurate, results are ill-conditioned
             q = F["rotation_init_from_to"](V(*f), V(*t))
             qv = ql(q)
             lines.append("fromto " + hv(*f, *t)); expect.append(" ".join(d2h(x) for x in qv)); meta.append(("fromto", cls))
@@ -415,7 +418,13 @@ def rotations(c, rebound, exe):
             if i == 0:
                 nz = [0.0, 0.0, 2.0]; nx = [1.0, 0.0, 1.0]     # witness of c20_to_new_axes_F18_negation
             q = F["rotation_init_to_new_axes"](V(*nz), V(*nx))
+            # conditioning of the orthogonalisation newx - (newx.z)z: rounding differences are amplified by |newx|/|newx_perp|
+            _lz = math.sqrt(sum(x * x for x in nz)) or 1.0
+            _dp = sum(a * b for a, b in zip(nz, nx)) / _lz
+            _perp = math.sqrt(max(sum((a - _dp * b / _lz) ** 2 for a, b in zip(nx, nz)), 1e-300))
+            _cond = max(1.0, math.sqrt(sum(x * x for x in nx)) / _perp, math.sqrt(sum(x * x for x in nx)) * max(_lz, 1.0) / _perp)
             for vv in ("00", "10", "01", "11"):
+                tolf[len(lines)] = _cond
                 lines.append("newaxes" + vv + " " + hv(*nz, *nx)); expect.append(" ".join(d2h(x) for x in ql(q))); meta.append(("newaxes" + vv, "newaxes"))
             c.count(("new_axes", i % 40))
             lz = math.sqrt(sum(x * x for x in nz))
@@ -489,7 +498,7 @@ def rotations(c, rebound, exe):
     if len(got) != len(lines):
         c.corr_break("drv_c20 returned %d lines for %d ops" % (len(got), len(lines)))
         return
-    for g, e, (tag, cls), l in zip(got, expect, meta, lines):
+    for idx_, (g, e, (tag, cls), l) in enumerate(zip(got, expect, meta, lines)):
         per[tag] = per.get(tag, 0) + 1
         same = g.split() == e.split()
         okk = same
@@ -497,13 +506,13 @@ def rotations(c, rebound, exe):
             try:
                 gv, ev = [h2d(x) for x in g.split()], [h2d(x) for x in e.split()]
                 sc = max([abs(x) for x in ev + gv if x == x and abs(x) != float("inf")] + [1e-300])
-                okk = len(gv) == len(ev) and all(ulps(a, b, sc) <= 64 for a, b in zip(gv, ev))
+                okk = len(gv) == len(ev) and all(ulps(a, b, sc) <= 64 * tolf.get(idx_, 1.0) for a, b in zip(gv, ev))
             except Exception:
                 okk = False
         if tag in ft_match:
             # the model variants differ only in the exactly-antiparallel branch / the orthogonalisation
             ft_match[tag][0] += 1
-            if okk or cls == "antiparallel-near":
+            if okk or cls in ("antiparallel-near", "extreme-scale"):
                 ft_match[tag][1] += 1
             elif ft_bad[tag] is None:
                 ft_bad[tag] = dict(op_line=l, model=g, impl=e, cls=cls)
